@@ -3,6 +3,7 @@ use super::{
     UsedTypes,
 };
 use crate::schema::{Schema, StoredField, StoredFieldId, TypeId};
+use crate::type_qualifiers::GraphqlTypeQualifier;
 use heck::ToUpperCamelCase;
 
 /// This checks that the `on` clause on fragment spreads and inline fragments
@@ -315,6 +316,8 @@ pub(crate) struct SelectedField {
     pub(crate) alias: Option<String>,
     pub(crate) field_id: StoredFieldId,
     pub(crate) selection_set: Vec<SelectionId>,
+    /// The field carries `@skip` or `@include`: the server may leave it out of the response.
+    pub(crate) conditional: bool,
 }
 
 impl SelectedField {
@@ -324,5 +327,19 @@ impl SelectedField {
 
     pub(crate) fn schema_field<'a>(&self, schema: &'a Schema) -> &'a StoredField {
         schema.get_field(self.field_id)
+    }
+
+    /// The qualifiers of the field's type as seen in a response: a field that the server may
+    /// leave out (`@skip` / `@include`) is nullable there even if its schema type is not.
+    pub(crate) fn response_type_qualifiers<'a>(
+        &self,
+        schema: &'a Schema,
+    ) -> &'a [GraphqlTypeQualifier] {
+        let qualifiers = self.schema_field(schema).r#type.qualifiers.as_slice();
+
+        match qualifiers.split_first() {
+            Some((GraphqlTypeQualifier::Required, rest)) if self.conditional => rest,
+            _ => qualifiers,
+        }
     }
 }
